@@ -25,12 +25,18 @@ def _alarm(signum, frame):
 
 @contextlib.contextmanager
 def time_limit(seconds):
+    """`seconds` of CPU time of this process (an endless loop of the analysed code burns CPU; a machine that is
+    merely busy must not look like a hang), with a wall-clock backstop thirty times as long."""
     old = signal.signal(signal.SIGALRM, _alarm)
-    signal.setitimer(signal.ITIMER_REAL, seconds)
+    oldp = signal.signal(signal.SIGPROF, _alarm)
+    signal.setitimer(signal.ITIMER_PROF, seconds)
+    signal.setitimer(signal.ITIMER_REAL, seconds * 30)
     try:
         yield
     finally:
+        signal.setitimer(signal.ITIMER_PROF, 0)
         signal.setitimer(signal.ITIMER_REAL, 0)
+        signal.signal(signal.SIGPROF, oldp)
         signal.signal(signal.SIGALRM, old)
 
 
